@@ -8,6 +8,7 @@ import Mathlib.Tactic.NormNum
 import BC.Real
 import BC.Model.Traj
 import BC.Lemmas.Loop
+import BC.Lemmas.C04Term
 
 namespace BC.Props.C04
 open BC BC.Model BC.Lemmas.Loop
@@ -175,5 +176,34 @@ theorem C04_vertical_velocity_step (cs g : ℝ) (dbm : ℝ → ℝ) (w : Vec ℝ
   rcases le_total 0 s.vel.y with hv | hv
   · nlinarith [mul_nonneg hv hk0]
   · nlinarith [mul_nonneg (neg_nonneg.mpr hv) (sub_nonneg.mpr hk1)]
+
+/-- **C04_terminates_partial** (partial: a positive lower bound `δ` on the time step — i.e. an upper bound on the speed along the
+    run — is a hypothesis): under downward gravity, if every step obeys the vertical-velocity inequality of
+    `C04_vertical_velocity_step` and the position update `y' = y + v_y'·dt`, with `δ ≤ dt ≤ Δ`, the height falls below ANY
+    floor after finitely many steps — so the maximum-drop limit is eventually violated and the loop stops. -/
+theorem C04_terminates_partial (g δ Δ : ℝ) (hg : g < 0) (hδ : 0 < δ) (hΔ : δ ≤ Δ) (vy y dt : ℕ → ℝ)
+    (hdt : ∀ k, δ ≤ dt k ∧ dt k ≤ Δ)
+    (hv : ∀ k, vy (k + 1) ≤ max (vy k) 0 + g * dt k)
+    (hy : ∀ k, y (k + 1) = y k + vy (k + 1) * dt k) (floor : ℝ) :
+    ∃ N : ℕ, y N < floor := by
+  have _ := hΔ
+  exact BC.Lemmas.C04Term.falls_below g δ hg hδ vy y dt (fun k => (hdt k).1) hv hy floor
+
+/-- link to the model: a state whose height is below the maximum-drop limit is never one the loop carries on with —
+    the iteration that produces it does not return `.ok`. -/
+theorem C04_below_floor_stops (r : Run ℝ) (ff : Flags) (sf : Nat) (l l' : LoopSt ℝ)
+    (hlow : l'.s.pos.y < r.cfg.maxDrop) : iterate r ff sf l ≠ .ok l' := by
+  intro h
+  have := (C04_ok_respects_limits r ff sf l l' h).2.1
+  linarith
+
+/-! non-vacuity: free fall from rest with unit steps satisfies the hypotheses -/
+example : ∃ N : ℕ, (fun k : ℕ => -(((k : ℝ)) * (k + 1) / 2)) N < -100 :=
+  C04_terminates_partial (-1) 1 1 (by norm_num) (by norm_num) le_rfl (fun k => -(k : ℝ))
+    (fun k => -((k : ℝ) * (k + 1) / 2)) (fun _ => 1) (fun _ => ⟨le_rfl, le_rfl⟩)
+    (fun k => by
+      have h : max (-(k : ℝ)) 0 = 0 := max_eq_right (by simp)
+      rw [h]; push_cast; linarith)
+    (fun k => by push_cast; ring) (-100)
 
 end BC.Props.C04
